@@ -46,12 +46,17 @@ def atoms_of(c):
     y = (pix(c["ay"], GPTS[1]) + c["fy"] / 8.0) * dx
     pos = [(x, y, 1.0), ((0 + 3 / 8.0) * dx, (1 + 7 / 8.0) * dx, 3.0), ((GPTS[0] - 1 + 7 / 8.0) * dx, (GPTS[1] - 1 + 7 / 8.0) * dx, 2.5)]
     sym = ["Si", "C", "O"]
-    if c.get("column"):
-        # an atomic column: the same element in the same pixel and the same slice (z 1.0, 1.6, 0.4 are all in the first 2 A slice)
-        x2 = (pix(c["ax"], GPTS[0]) + ((c["fx"] + 2) % 8) / 8.0) * dx
+    col = {True: "same_pixel", False: "none", None: "none"}.get(c.get("column"), c.get("column"))
+    if col in ("same_pixel", "next_pixel"):
+        # an atomic column: the same element in the same pixel and the same slice (z 1.0, 1.6, 0.4 are all in the first 2 A slice);
+        # next_pixel: the further atom in the neighbouring pixel along x (wrapped), so that the bilinear 2 x 2 footprints overlap
+        if col == "same_pixel":
+            x2 = (pix(c["ax"], GPTS[0]) + ((c["fx"] + 2) % 8) / 8.0) * dx
+        else:
+            x2 = ((pix(c["ax"], GPTS[0]) + 1) % GPTS[0] + ((c["fx"] + 3) % 8) / 8.0) * dx
         y2 = (pix(c["ay"], GPTS[1]) + ((c["fy"] + 5) % 8) / 8.0) * dx
-        pos += [(x2, y2, 1.6), (x, y, 0.4)]
-        sym += ["Si", "Si"]
+        pos += [(x2, y2, 1.6)] + ([(x, y, 0.4)] if col == "same_pixel" else [])          # next_pixel: no two atoms share a floor pixel
+        sym += ["Si"] + (["Si"] if col == "same_pixel" else [])
     return Atoms(sym, positions=pos, cell=(GPTS[0] * dx, GPTS[1] * dx, 4.0), pbc=True)
 
 
@@ -120,7 +125,7 @@ def subpixel_event(c, rng):
 def tags_for(ev, clauses):
     c = ev["case"]
     return {"clauses": sorted(clauses), "k": ev["k"], "projection": ev.get("projection"), "sigmas": ev.get("sigmas"),
-            "atom_in_last_column_with_y_offset": c["ay"] == "last" and c["fy"] != 0, "how": ev.get("how"), "column": bool(c.get("column"))}
+            "atom_in_last_column_with_y_offset": c["ay"] == "last" and c["fy"] != 0, "how": ev.get("how"), "column": c.get("column") not in (False, None, "none")}
 
 
 def judge(ctx: Ctx, evs):
@@ -172,7 +177,7 @@ def run(ctx: Ctx):
             finite = (j % 16 == 1)
             evs.append(repeat_event(c, "finite" if finite else "infinite", j % 8 == 1, "tile" if j % 2 else "crystal"))
             ctx.case(("repeat", json.dumps(c), finite))
-        if j % 5 == 0 or (c.get("column") and j % 2 == 0):
+        if j % 5 == 0 or (c.get("column") not in (False, None, "none") and j % 2 == 0):
             evs.append(subpixel_event(c, rng))
             ctx.case(("subpixel", json.dumps(c)))
     for e in evs[:1] + evs[-1:]:
